@@ -75,6 +75,7 @@ ADDED = {
  "C09": " Added later: call pairs on one thread over all ordered pairs of (mu, sigma', sigma_min) cells; a centre ladder (mu = +-(k + f), k up to 32000, f at the ends and middle of [0,1)).",
  "C10": " Added later: I2 on a key that replaced another key in the same variable; the range half of I1 on a wider key window (24/8 keys quick, 256/64 thorough, plus steering seeds); per key the executions with the most negative / most positive sampler centre of a message ladder; small-scope targets scaled so that centres reach +-7000.",
  "C11": " Added later: length histories on one thread (all triples of 7 lengths, inputs sharing a prefix across lengths; slot roots read on a fresh thread); intermediate-state sparsity - inputs built by CRT so that their residues modulo the partial factors X^m - zeta have each half-block zero or dense (all patterns up to 8 halves, singles/pairs/periodic beyond), forward and inverse, every n >= 8.",
+ "C12": " Added later: call histories on one fresh thread (inverse_or_zero along [x, 0, 0, x, x, 1] for every residue, triples over a small set, add/sub/mul along (a,b),(b,a),(a,a),(a,b),(b,b)); product-structured batches for batch inversion.",
  "C13": " Added later: length histories on one thread (all triples of 5 lengths; round trip, split/merge, product at each step); a scale ladder (operands scaled by 2^k, k = -64..14); split/merge on transforms of real polynomials chosen in the transform domain (real / imaginary / complex / zero on partner slots), against the definition over partner slots.",
  "C14": " Added later: call histories on one thread (all x,y,x and x,y,y over 14 (input, degree) symbols incl. inputs of 1024, 1025 and 5000 bytes); a length ladder (every length 0..=1100, thorough 0..=4200, around 2^13..2^20, two contents); scripted XOF streams through the XOF hook (constant accepted values incl. multiples of q, runs of k rejected chunks at four positions for k up to 2048, r rejections spread over n + r chunks, periodic rejections) against Algorithm 3 on the same stream.",
  "C15": " Added later: single-bit flips also on the seeds whose first candidate does not fit the encoding (retry branch) and on the seed with the longest rejection run; bit flips on the all-ones seed.",
